@@ -255,7 +255,7 @@ Proof. exact CacheLockset.cache_core_race_free. Qed.
 (* known finding K1, DERIVED from the source: the full skeleton fails the lockset check, and in every offending
    (writer method, other method, field) triple the unprotected WRITER is Clear or Resize, the other party is one
    of the methods that read without any lock (CacheLockset.k1_unlocked_readers = Capacity, Contains, Get, Set,
-   Delete, Len, Keys, Values, Resize — never Sweep or getCurrentPartition, which take currentPartitionMux) and the
+   Delete, Len, Keys, Values, Resize — never Sweep or the ticker goroutine, which take currentPartitionMux) and the
    field is one of partitions, valuePartitionIndex, maxPartitions, partitionCapacity (CacheLockset.k1_fields).
    So K1 is the only lockset failure of the cache; a new one (the RLock dropped in Sweep or in
    getCurrentPartition's fast path, a new unlocked write) makes this theorem or the previous one stop compiling. *)
@@ -272,7 +272,7 @@ Proof. intros H. apply Conc.lockset_sound. now apply LocksetDiag.offending_compl
 (* the hand-written footprints of Model/CacheConc.v (used by C08_partial_race_free_core and C08_race_refuted) agree with
    the source at the level of the cache's fields and its two mutexes: every field access a pc declares — in ANY
    state — occurs in the generated skeleton with the same read/write flag and the same set of held locks; and
-   every field access the translator found in Get/Contains/Set/Delete/Sweep/Clear/getCurrentPartition is declared
+   every field access the translator found in Get/Contains/Set (incl. the private getCurrentPartition)/Delete/Sweep/Clear is declared
    by some pc with the same locks (a declared write also accounts for a read) *)
 Theorem C08_footprints_match_source :
   (forall K V (s : @CacheConc.state K V) (p : @CacheConc.pc V) a,
